@@ -206,9 +206,9 @@ def ungapped(a, b, mname, seed, threshold, direction):
 words = ["".join(w) for n in (1, 2, 3, 4) for w in itertools.product("ACG", repeat=n)]
 pairs = list(itertools.product(words, repeat=2))
 R.rng.shuffle(pairs)
-pairs = pairs[: (1200 if R.thorough else 160)] + [("ACGA", "ACGA"), ("A", "CCCA"), ("AACC", "CCAA"), ("ACAG", "AG")]
+pairs = pairs[: (1200 if R.thorough else 160)] + [("ACGA", "ACGA"), ("A", "CCCA"), ("AACC", "CCAA"), ("ACAG", "AG"), ("CCT", "TTC"), ("TCT", "CT"), ("CT", "TCAT"), ("GATC", "ACT")]
 for a, b in pairs:
-    for mname in MATRICES if R.thorough else ("+1/-1", "+2/-3"):
+    for mname in MATRICES if R.thorough else ("+1/-1", "+2/-3", "asymmetric"):
         for gap in (-1, -3, (-3, -1)) if R.thorough else (-1, (-3, -1)):
             bands = [(lo, hi) for lo in range(-len(a) - 1, len(b) + 2) for hi in range(lo, len(b) + 2)]
             if not R.thorough:
